@@ -135,18 +135,21 @@ fn op_elem(case: &Value) -> Value {
     json!({ "t": tbits(&t) })
 }
 
+/// The sine and cosine the REPOSITORY uses for an angle in degrees, read off its own code:
+/// `Transform::rotate(a)` is `[[cos, -sin], [sin, cos]]`, and `Transform::from_instance(origin, false, Some(a))`
+/// has the same matrix. Both are reported; the translator takes the first and checks the second.
 fn op_libm(case: &Value) -> Value {
-    let r: Vec<Value> = case["angles"]
-        .as_array()
-        .expect("angles")
-        .iter()
-        .map(|a| {
-            let a = a.as_f64().expect("angle");
-            // raw bit patterns here (the sign of a zero is kept)
-            json!([a.to_radians().sin().to_bits(), a.to_radians().cos().to_bits()])
-        })
-        .collect();
-    json!({ "r": r })
+    let mut r: Vec<Value> = Vec::new();
+    let mut fi: Vec<Value> = Vec::new();
+    for a in case["angles"].as_array().expect("angles") {
+        let a = a.as_f64().expect("angle");
+        // raw bit patterns here (the sign of a zero is kept)
+        let t = Transform::rotate(a);
+        r.push(json!([t.a[1][0].to_bits(), t.a[0][0].to_bits()]));
+        let f = Transform::from_instance(&Point::new(0, 0), false, Some(a));
+        fi.push(json!([f.a[1][0].to_bits(), f.a[0][0].to_bits()]));
+    }
+    json!({ "r": r, "fi": fi, "source": "Transform::rotate / Transform::from_instance" })
 }
 
 const NLAYERS: i64 = 3;
